@@ -8,7 +8,8 @@ META = {
     'explanation': 'R14.1 the name table, the Builtin enum and the dispatch agree and are the seven documented builtins; R14.2 every builtin '
                    'except print rejects a wrong argument count with an ArgumentError before touching args[0]; R14.3 every builtin, for each '
                    'of the seven value types (49 cells), reaches a return (value or explicit error) with no undischarged panic source; R14.4 '
-                   'converting a value to its own type returns the argument itself; R14.5 integer results are range-checked at the encoder.',
+                   'converting a value to its own type returns the argument itself; R14.5 integer results are range-checked at the encoder.'
+                   ' R14.7 every way the compiler translates a call ends in exactly one Call / CallBuiltin (no compile-time answers for builtins).',
     'exhaustive': True,
     'not_decided': ['the documented results of conversions as values (decimal spelling, number -> text -> number round trip)',
                     "the placeholder substitution of print (string-valued behaviour; `print(\"{} {}\", \"{}\", 1)` prints `1 {}`)"],
@@ -162,3 +163,23 @@ def run(ctx, rep):
     shared.check_int_encoder_range(ctx, rep, 'R14.5', only_prefix='builtins::')
     rep.rule('R14.6', 'float -> integer casts (which saturate silently) are range-guarded')
     shared.check_float_casts(ctx, rep, 'R14.6')
+    rep.rule('R14.7', 'a builtin is answered by the builtin: every way the compiler translates a call ends in Call / CallBuiltin (the compiler has no answers of its own for a builtin)')
+    check_calls_are_calls(ctx, rep, 'R14.7')
+
+
+def check_calls_are_calls(ctx, rep, rule):
+    """every completed path of the compiler through a call expression emits the call instruction: a path that produces the
+    value some other way (a constant computed at compile time) answers the builtin with the compiler's idea of it"""
+    from rules import csa_run
+    R = csa_run.analyse(ctx)
+    seen = {}
+    for a in R['arms']:
+        if a['method'] != 'compile_expression' or not a['trace'].startswith('Expr::Call') or not a['reach']:
+            continue
+        key = (a['trace'], tuple(a['emits']))
+        seen[key] = a
+    for (tr, emits), a in sorted(seen.items()):
+        calls = [e for e in emits if e in ('Call', 'CallBuiltin')]
+        rep.ob(len(calls) == 1 and emits[-1:] == tuple(calls), rule, 'compiler::Compiler::compile_expression', 'call path ' + tr,
+               'the code of a call ends in exactly one call instruction (emitted here: %s)' % (list(emits),), 'src/compiler.rs')
+    rep.count('call_paths', len(seen))
